@@ -98,6 +98,7 @@ type RunResult struct {
 	Switches     int
 	SwitchHash   uint64
 	SharedWrites []string
+	Races        []sim.Race
 	Stray        []string // events not attributable to a request task
 	Probes       map[string]int
 	HarnessPanic string
@@ -623,6 +624,10 @@ func Exec(p *Pkg, plan *RunPlan, t *tape.Tape, logOn bool) *RunResult {
 	}
 	// shared-state discipline
 	trackShared := !p.UnsimSync
+	if trackShared && !p.NoRace {
+		s.EnableRace(func(site int) string { return siteDesc(p, site) })
+		s.Install() // again: the access hooks are only installed with the detector on
+	}
 	var lastHash uint64
 	var since []string
 	if trackShared {
@@ -670,6 +675,10 @@ func Exec(p *Pkg, plan *RunPlan, t *tape.Tape, logOn bool) *RunResult {
 		if h := e.sharedHash(); h != lastHash {
 			res.SharedWrites = append(res.SharedWrites, fmt.Sprintf("%s changed by the end of the run (tasks %v)", e.sharedDiff(), since))
 		}
+	}
+	res.Races = s.Races()
+	if n := s.RaceAccesses(); n > 0 {
+		s.Probes["accesses_seen_by_race_detector"] += n
 	}
 	for _, tk := range s.Tasks {
 		if tk.Panic != nil && res.HarnessPanic == "" {
